@@ -201,6 +201,30 @@ M("C20", "ascii_symbols_always", "ui/components/exception_trace.py",
 M("C20", "leading_space_dropped", "ui/components/exception_trace.py",
   "            if start[1] > current_col:\n                buffer += token_info.line[current_col : start[1]]", "            if start[1] > current_col + 1:\n                buffer += token_info.line[current_col : start[1]]")
 
+# ---- C04 ------------------------------------------------------------------------------------
+M("C04", "clamp_from_zero", "api/command/command.py",
+  "        return min(max(int(status_code), 1), 255)", "        return min(max(int(status_code), 0), 255)")
+M("C04", "no_upper_clamp", "api/command/command.py",
+  "        return min(max(int(status_code), 1), 255)", "        return max(int(status_code), 1)")
+M("C04", "falsy_is_none_only", "api/command/command.py",
+  "        if not status_code:\n            return 0", "        if status_code is None:\n            return 0")
+M("C04", "keyboard_interrupt_escapes_run", "console_application.py",
+  "        except KeyboardInterrupt:\n            status_code = 1\n        except Exception as e:", "        except Exception as e:")
+M("C04", "handled_event_ignored", "api/command/command.py",
+  "            if event.is_handled():\n                return event.status_code\n", "")
+M("C04", "exit_code_from_code_attr", "console_application.py",
+  '        if not hasattr(e, "code") or not isinstance(e, int):\n            return 1', '        if not hasattr(e, "code"):\n            return 1')
+M("C04", "simple_render_unchecked_markup", "ui/components/exception_trace.py",
+  '                    _safe_markup(str(self._exception), "<error>{}</error>")', '                    str(self._exception)')
+M("C04", "render_line_unchecked_markup", "ui/components/exception_trace.py",
+  '        io.write_line("{}{}".format(indent * " ", _safe_markup(line)))', '        io.write_line("{}{}".format(indent * " ", line))')
+M("C04", "handler_called_twice", "api/command/command.py",
+  "        return getattr(handler, handler_method)(args, io, self)", "        getattr(handler, handler_method)(args, io, self)\n        return getattr(handler, handler_method)(args, io, self)")
+M("C04", "errors_swallowed_silently", "console_application.py",
+  "            with io.indent(0):\n                trace.render(io, simple=isinstance(e, CliKitException))\n", "")
+M("C04", "status_zero_on_library_error", "console_application.py",
+  "            status_code = self.exception_to_exit_code(e)", "            status_code = 0 if isinstance(e, CliKitException) else self.exception_to_exit_code(e)")
+
 
 def run_one(m, runs):
     prop, name, path, old, new, expect = m
